@@ -168,6 +168,8 @@ type nsSim struct {
 	// (a NAT/firewall between them), which is what makes relays necessary.
 	blocked map[[2]int]bool
 	dropped int
+	// observe, when set, is called after every slice of a virtual-time advance
+	observe func()
 }
 
 func (s *nsSim) block(a, b int) {
@@ -455,8 +457,19 @@ func (s *nsSim) flush(maxRounds int) int {
 
 // advance moves virtual time forward by d in steps, delivering nothing.
 func (s *nsSim) advance(d time.Duration) {
-	time.Sleep(d)
-	synctest.Wait()
+	// in slices, so that an observer (a check that accumulates facts about node state, such as every
+	// relay index a node ever allocated) also sees state that appears and disappears while nothing is
+	// delivered: retried handshakes, tunnels that time out
+	const slice = 200 * time.Millisecond
+	for d > 0 {
+		st := min(d, slice)
+		time.Sleep(st)
+		synctest.Wait()
+		d -= st
+		if s.observe != nil {
+			s.observe()
+		}
+	}
 }
 
 // run delivers everything in order while advancing virtual time in small steps for d.
